@@ -31,6 +31,7 @@ def make_config(prop, rng, tier):
         "p_scribble": rng.choice([0.0, 0.03]),
         "nboxes": rng.randint(1, 6), "maxw": rng.choice([3, 4, 5]),
         "flatten_biclosed": rng.random() < 0.3,
+        "pro_names": rng.random() < 0.15,      # rigid sessions over the generator of PRO (name 1) only
         **({"max_steps": 160, "nboxes": rng.randint(5, 8)} if tier == "thorough" and rng.random() < 0.3 else {}),
     }
 
@@ -174,7 +175,8 @@ def atoms(family, rng, n):
     if family == "monoidal":
         return [rng.choice(["x", "y", "x", "y", 2, 3]) for _ in range(n)]      # names may be numbers
     if family == "rigid":
-        return [[rng.choice("ab"), rng.choice([0, 0, 0, 1, -1])] for _ in range(n)]
+        # (the name 1 is the generator of PRO: rigid types over it meet PRO wires)
+        return [[rng.choice(["a", "b", "a", "b", 1]), rng.choice([0, 0, 0, 1, -1])] for _ in range(n)]
     if family == "tensor":
         return [rng.choice([2, 2, 3]) for _ in range(n)]
     if family == "circuit":
@@ -386,6 +388,9 @@ class World(BaseWorld):
             return cls(spec["n"], spec["m"], spec.get("phase", 0))
         if family == "tensor":
             return mod.Spider(spec["n"], spec["m"], mod.Dim(spec.get("dim", 2)))
+        if family == "rigid" and spec["which"] == "ProId":
+            from discopy import rigid
+            return rigid.Id(rigid.PRO(spec["n"]))
         if family == "rigid" and spec["which"] == "Plain":
             # a box of the plain monoidal class with plain (name-only) objects: legal company for rigid
             # diagrams wherever its wires meet wires that are no adjoints
@@ -909,7 +914,10 @@ class Driver:
 
     def ty(self, lo=0, hi=2):
         gen = self.s["gen"]
-        return atoms(self.family, gen, gen.randint(lo, hi))
+        t = atoms(self.family, gen, gen.randint(lo, hi))
+        if self.family == "rigid" and self.cfg.get("pro_names"):
+            t = [[1, a[1]] for a in t]
+        return t
 
     def box_spec(self, k):
         gen, family = self.s["gen"], self.family
@@ -965,6 +973,8 @@ class Driver:
         if family == "tensor":
             return {"kind": "special", "which": "Spider", "n": gen.randint(0, 3), "m": gen.randint(0, 3),
                     "dim": gen.choice([2, 3])}
+        if family == "rigid" and gen.random() < (0.6 if self.cfg.get("pro_names") else 0.1):
+            return {"kind": "special", "which": "ProId", "n": gen.randint(1, 2)}
         if family == "rigid" and gen.random() < 0.3:
             return {"kind": "special", "which": "Plain", "name": gen.choice(["g", "h"]),
                     "dom": [gen.choice("ab") for _ in range(gen.randint(0, 2))],
